@@ -96,7 +96,10 @@ EndWhy(S, ev) ==
      THEN {"result-holds-moved-from-object"} ELSE {})
     \cup (IF \E t \in RvalueToks(S) : Count(t, toks) > 1 THEN {"rvalue-element-duplicated"} ELSE {})
     \cup (IF S.keeps /\ \E t \in AllArgToks(S) : Count(t, toks) > 1 THEN {"element-duplicated"} ELSE {})
-    \cup (IF S.keeps /\ \E t \in AllArgToks(S) : Count(t, toks) = 0 THEN {"element-lost"} ELSE {})
+    \* a value sitting in a moved-from result object has not arrived: only live holders count
+    \cup (IF S.keeps /\ \E t \in AllArgToks(S) :
+               Cardinality({i \in DOMAIN res : res[i].tok = t /\ S.objs[res[i].obj].st = "live"}) = 0
+          THEN {"element-lost"} ELSE {})
     \cup (IF \E i \in DOMAIN S.args :
                /\ S.args[i].cat \in {"lvalue", "clvalue"}
                /\ \/ ev.args[i].objs # S.args[i].objs
